@@ -246,6 +246,8 @@ const KINDS: &[&str] = &[
     "update_options",
     "flags_time",
     "file_info",
+    "master_channel_config",
+    "read_handler_octet_strings",
 ];
 
 fn bit(x: u64, k: u32) -> bool {
@@ -347,6 +349,112 @@ pub fn run_struct(c: &SCase) -> CaseOut {
                         fail(&mut out, kind, "permissions".into());
                     }
                 }
+            }
+        }
+        "master_channel_config" => {
+            // buffer sizes that differ from each other, at and around the limits (tx >= 249, rx >= 2048)
+            let sizes = [0u16, 248, 249, 250, 292, 2047, 2048, 2049, 4096, 8192, 65535];
+            let tx = if bit(a, 40) { (a >> 16) as u16 } else { sizes[(a as usize) % sizes.len()] };
+            let rx = if bit(b, 40) { (b >> 16) as u16 } else { sizes[(b as usize) % sizes.len()] };
+            let address = (cc & 0xFFFF) as u16;
+            let al = v::all_app_decode_level();
+            let x = al[(cc >> 16) as usize % al.len()];
+            let dl: ffi::DecodeLevel = ffi::DecodeLevelFields { application: x, transport: ffi::TransportDecodeLevel::Nothing, link: ffi::LinkDecodeLevel::Nothing, physical: ffi::PhysDecodeLevel::Nothing }.into();
+            let f = ffi::MasterChannelConfig { address, decode_level: dl, tx_buffer_size: tx, rx_buffer_size: rx };
+            let got = MasterChannelConfig::try_from(f);
+            // what the native configuration accepts for these values
+            let want_ok = address < 0xFFF0 && tx >= 249 && rx >= 2048;
+            match got {
+                Ok(n) => {
+                    if !want_ok {
+                        fail(&mut out, kind, format!("address {address} tx {tx} rx {rx} is accepted, the native configuration would refuse it"));
+                    }
+                    if n.master_address.raw_value() != address || n.tx_buffer_size.value() != tx as usize || n.rx_buffer_size.value() != rx as usize {
+                        fail(&mut out, kind, format!("address {address} tx {tx} rx {rx} crosses as address {} tx {} rx {}", n.master_address.raw_value(), n.tx_buffer_size.value(), n.rx_buffer_size.value()));
+                    }
+                    if norm(&format!("{:?}", n.decode_level.application)) != norm(&format!("{:?}", x)) {
+                        fail(&mut out, kind, "decode level".into());
+                    }
+                }
+                Err(e) => {
+                    if want_ok {
+                        fail(&mut out, kind, format!("address {address} tx {tx} rx {rx} is refused ({:?}) although the native configuration accepts it", e));
+                    }
+                }
+            }
+        }
+        "read_handler_octet_strings" => {
+            // 1..4 octet strings of one response header are handed to the foreign ReadHandler through the binding's
+            // iterator; the callback drains it the way the C / .NET / Java glue does
+            let n = 1 + (a % 4) as usize;
+            let strings: Vec<(Vec<u8>, u16)> = (0..n)
+                .map(|k| {
+                    let len = 1 + ((a >> (8 + 4 * k)) & 0x7) as usize;
+                    let bytes: Vec<u8> = (0..len).map(|j| (b >> (8 * ((k + j) % 8))) as u8 ^ (k as u8 * 31 + j as u8)).collect();
+                    (bytes, (cc >> (16 * k)) as u16)
+                })
+                .collect();
+            extern "C" fn on_octets(_info: ffi::HeaderInfo, values: *mut crate::OctetStringIterator<'_>, ctx: *mut std::os::raw::c_void) {
+                let got = unsafe { &mut *(ctx as *mut Vec<(u16, Vec<u8>)>) };
+                loop {
+                    let s = match unsafe { crate::octet_string_iterator_next(values) } {
+                        Some(s) => s,
+                        None => break,
+                    };
+                    let mut bytes = vec![];
+                    loop {
+                        let p = unsafe { crate::byte_iterator_next(s.value) };
+                        if p.is_null() {
+                            break;
+                        }
+                        bytes.push(unsafe { *p });
+                    }
+                    got.push((s.index, bytes));
+                    if got.len() > 16 {
+                        break;
+                    }
+                }
+            }
+            let mut got: Vec<(u16, Vec<u8>)> = vec![];
+            let mut handler = ffi::ReadHandler {
+                begin_fragment: None,
+                end_fragment: None,
+                handle_binary_input: None,
+                handle_double_bit_binary_input: None,
+                handle_binary_output_status: None,
+                handle_counter: None,
+                handle_frozen_counter: None,
+                handle_analog_input: None,
+                handle_frozen_analog_input: None,
+                handle_analog_output_status: None,
+                handle_binary_output_command_event: None,
+                handle_analog_output_command_event: None,
+                handle_unsigned_integer: None,
+                handle_octet_string: Some(on_octets),
+                handle_abs_time: None,
+                handle_string_attr: None,
+                handle_variation_list_attr: None,
+                handle_uint_attr: None,
+                handle_bool_attr: None,
+                handle_int_attr: None,
+                handle_time_attr: None,
+                handle_float_attr: None,
+                handle_octet_string_attr: None,
+                handle_bit_string_attr: None,
+                on_destroy: None,
+                ctx: &mut got as *mut _ as *mut std::os::raw::c_void,
+            };
+            let info = HeaderInfo { variation: Variation::Group110(0), qualifier: QualifierCode::Range16, is_event: false, has_flags: false };
+            {
+                let mut it = strings.iter().map(|(b, i)| (b.as_slice(), *i));
+                dnp3::master::ReadHandler::handle_octet_string(&mut handler, info, &mut it);
+            }
+            let want: Vec<(u16, Vec<u8>)> = strings.iter().map(|(b, i)| (*i, b.clone())).collect();
+            if got != want {
+                fail(&mut out, kind, format!("octet strings {:02x?} reach the foreign handler as {:02x?}", want, got));
+            }
+            if n >= 2 {
+                out.label("several_strings_in_one_header");
             }
         }
         "permissions" => {
@@ -616,7 +724,7 @@ impl Prop for Structs {
     const ID: &'static str = "C20";
     const NAME: &'static str = "structs";
     fn rule() -> &'static str {
-        "configuration, header and status structures crossing the boundary (IIN octets, response/request headers, header info with every variation, file permissions both ways, class-zero / event-buffer / feature / application-IIN configuration, restart delays both ways, association configuration with all class sets, timeouts and retry strategy, connect strategy, file read configuration, decode levels both ways, control relay output blocks both ways, buffer state counts, UTC timestamps, update options, flags and times, file descriptors with arbitrary UTF-8 names incl. NUL) with generated field values; each field must arrive in its namesake with its value; every case is non-trivial"
+        "configuration, header and status structures crossing the boundary (IIN octets, response/request headers, header info with every variation, file permissions both ways, class-zero / event-buffer / feature / application-IIN configuration, restart delays both ways, association configuration with all class sets, timeouts and retry strategy, connect strategy, file read configuration, decode levels both ways, control relay output blocks both ways, buffer state counts, UTC timestamps, update options, flags and times, file descriptors with arbitrary UTF-8 names incl. NUL, master channel configuration with unequal buffer sizes at the limits, octet strings handed to a foreign ReadHandler) with generated field values; each field must arrive in its namesake with its value; every case is non-trivial"
     }
     fn strategy(_tier: Tier) -> BoxedStrategy<SCase> {
         (0u8..KINDS.len() as u8, any::<u64>(), any::<u64>(), any::<u64>()).prop_map(|(kind, a, b, c)| SCase { kind, a, b, c }).boxed()
